@@ -200,6 +200,29 @@ def regen_consts(pid=None):
     return own_err, notes
 
 
+TRANSLATED_STUB = ("(* GENERATED stub: harness/cmd/go2coq could not run on the current tree; no function is translated. *)\n"
+                   "From Coq Require Import ZArith Bool.\nFrom M.base Require Import MiniGo.\nOpen Scope Z_scope.\n")
+
+
+def regen_translated():
+    """Regenerates coq/gen/Translated.v from /repo's current source with harness/cmd/go2coq (the translator of the
+    pure integer fragment). A function that no longer translates is omitted from the file, so exactly the proofs that
+    mention it stop compiling; if the translator itself cannot run, the file becomes a stub without definitions
+    (never a stale copy). Returns a list of notes (empty when every registered function translated)."""
+    os.makedirs(BIN, exist_ok=True)
+    out = os.path.join(BIN, "go2coq")
+    target = os.path.join(COQ, "gen", "Translated.v")
+    rc, txt = sh(["go", "build", "-o", out, "./cmd/go2coq"], cwd=HARNESS, env=GOENV, timeout=900)
+    if rc != 0:
+        write_if_changed(target, TRANSLATED_STUB)
+        return ["go2coq does not build: " + txt[-800:]]
+    rc, txt = sh([out, "-repo", REPO, "-out", target], env=GOENV, timeout=900)
+    if rc not in (0, 1) or not os.path.exists(target):
+        write_if_changed(target, TRANSLATED_STUB)
+        return ["go2coq failed (exit %s): %s" % (rc, txt[-800:])]
+    return [l[:600] for l in txt.splitlines() if l.startswith("NOT TRANSLATED")]
+
+
 def coq_project():
     files = []
     for d in ("base", "gen", "model", "proofs", "props"):
@@ -420,6 +443,10 @@ def run_check(pid, tier, seed):
         err, const_notes = regen_consts(pid)
         if err:
             problems.append(dict(kind="consts", what=err))
+        xl_notes = regen_translated()
+        const_notes = const_notes + xl_notes
+        if xl_notes and getattr(mod, "USES_TRANSLATED", False):
+            problems.append(dict(kind="translate", what="; ".join(xl_notes)[:1500]))
         props = check_props(pid)
         if tier == "thorough" and not props["failed"] and not os.environ.get("VERIF_NO_COQCHK"):
             # same critical section as the build: a concurrent check may regenerate Consts.v
@@ -533,6 +560,7 @@ def setup():
         return 1
     with Lock("coq"):
         err, notes = regen_consts()
+        notes = notes + regen_translated()
         if err or notes:
             print(err, "\n".join(notes))
             return 1
